@@ -56,6 +56,9 @@ macro_rules! family {
                 }
             }
             pub const NOPS: usize = 46;
+            macro_rules! inv_extra {
+                ($i:expr, $p:ident, $r:ident, $sink:ident) => { inv_extra_impl!($M4, $i, $p, $r, $sink) };
+            }
             /// one step of a program; returns (operation name, captured output words)
             pub fn step(p: &mut Pools, r: &mut Rng, sink: &mut dyn FnMut(&'static str, Out)) {
                 let op = r.idx(NOPS);
@@ -86,7 +89,7 @@ macro_rules! family {
                     20 => { let q = pick!(p.uq) * pick!(p.uq); keep(&mut p.uq, q, r); out!("quat*quat", q); }
                     21 => { let q = pick!(p.uq).inverse(); keep(&mut p.uq, q, r); out!("Quat::inverse", q); let c = pick!(p.uq).conjugate(); keep(&mut p.uq, c, r); out!("Quat::conjugate", c); }
                     22 => { let q = pick!(p.uq).lerp(pick!(p.uq), s01); keep(&mut p.uq, q, r); out!("Quat::lerp", q); }
-                    23 => { let q = pick!(p.uq).slerp(pick!(p.uq), s01); keep(&mut p.uq, q, r); out!("Quat::slerp", q); }
+                    23 => { let sx = if r.below(3) == 0 { r.range(-8.0, 8.0) as $S } else { s01 }; let q = pick!(p.uq).slerp(pick!(p.uq), sx); keep(&mut p.uq, q, r); out!("Quat::slerp", q); }
                     24 => { let q = pick!(p.uq).rotate_towards(pick!(p.uq), r.range(0.0, 3.5) as $S); keep(&mut p.uq, q, r); out!("Quat::rotate_towards", q); }
                     25 => { if r.bool() { let q0 = <$Q>::from_axis_angle(pick!(p.uv3), ang(r)); keep(&mut p.uq, q0, r); let (ax0, an0) = q0.to_axis_angle(); keep(&mut p.uv3, ax0, r); let q1 = <$Q>::from_axis_angle(ax0, an0); out!("from_axis_angle->to_axis_angle->from_axis_angle", q1); }
                             let (ax, an) = pick!(p.uq).to_axis_angle(); let q = <$Q>::from_axis_angle(ax, an); keep(&mut p.uq, q, r); keep(&mut p.uv3, ax, r); out!("to_axis_angle->from_axis_angle", q); }
@@ -103,7 +106,7 @@ macro_rules! family {
                     36 => { let (e, c0) = (pick!(p.v3), pick!(p.v3)); let u = pick!(p.uv3); let d = c0 - e; if d.length() > 1e-3 * (e.length() + c0.length()) && d.normalize().cross(u).length() > 1e-2 { let m = <$M4>::look_at_rh(e, c0, u); keep(&mut p.am4, m, r); out!("Mat4::look_at_rh", m); let q = <$Q>::look_at_lh(e, c0, u); keep(&mut p.uq, q, r); out!("Quat::look_at_lh", q); } }
                     37 => { let m = pick!(p.am4); let v = m.transform_point3(pick!(p.v3)); out!("Mat4::transform_point3", v); let w = m.transform_vector3(pick!(p.v3)); out!("Mat4::transform_vector3", w); }
                     38 => { let m = pick!(p.am4) * pick!(p.am4); if m.is_finite() { keep(&mut p.am4, m, r); } out!("Mat4*Mat4", m); }
-                    39 => { let m = pick!(p.am4); if m.determinant() != 0.0 { let i = m.inverse(); out!("Mat4::inverse", i); if i.is_finite() { let v = i.transform_point3(pick!(p.uv3)); out!("inverse.transform_point3", v); } } }
+                    39 => { let m = pick!(p.am4); if m.determinant() != 0.0 { let i = m.inverse(); out!("Mat4::inverse", i); if i.is_finite() { let v = i.transform_point3(pick!(p.uv3)); out!("inverse.transform_point3", v); let w = i.transform_vector3(pick!(p.uv3)); out!("inverse.transform_vector3", w); inv_extra!(i, p, r, sink); } } }
                     40 => { let m = pick!(p.trs4); if m.determinant() != 0.0 && m.is_finite() { let (s, q, t) = m.to_scale_rotation_translation(); if s.is_finite() && s.cmpne(<$V3>::ZERO).all() { keep(&mut p.uq, q, r); let back = <$M4>::from_scale_rotation_translation(s, q, t); keep(&mut p.am4, back, r); keep(&mut p.trs4, back, r); out!("Mat4::to_srt->from_srt", back); } } }
                     41 => { let a = pick!(p.a3); let m = <$M4>::from(a); keep(&mut p.am4, m, r); let q = <$Q>::from_affine3(&<$A3>::from_quat(pick!(p.uq))); keep(&mut p.uq, q, r); out!("Quat::from_affine3", q); let i = a.inverse(); if i.is_finite() { out!("Affine3::inverse", i); } }
                     42 => { let a = pick!(p.a3); if a.matrix3.determinant() != 0.0 && a.is_finite() { let (s, q, t) = a.to_scale_rotation_translation(); if s.is_finite() && s.cmpne(<$V3>::ZERO).all() { keep(&mut p.uq, q, r); out!("Affine3::to_srt", (s, q, t)); } } }
@@ -130,6 +133,15 @@ macro_rules! family {
             pub const TAG: &str = $tag;
         }
     };
+}
+macro_rules! inv_extra_impl {
+    (Mat4, $i:expr, $p:ident, $r:ident, $sink:ident) => {{
+        let k = $r.idx($p.uv3.len());
+        let u = glam::Vec3A::from($p.uv3[k]);
+        $sink("inverse.transform_point3a", cap_of(&$i.transform_point3a(u)));
+        $sink("inverse.transform_vector3a", cap_of(&$i.transform_vector3a(u)));
+    }};
+    ($other:ident, $i:expr, $p:ident, $r:ident, $sink:ident) => {{}};
 }
 family!(f32f, f32, Vec2, Vec3, Vec4, Quat, Mat2, Mat3, Mat4, Affine2, Affine3A, "f32");
 family!(f64f, f64, DVec2, DVec3, DVec4, DQuat, DMat2, DMat3, DMat4, DAffine2, DAffine3, "f64");
@@ -235,6 +247,7 @@ pub fn run(mon: &mut Monitor, args: &Args) {
         documented_violations(mon, on);
         crate::c20v::documented_violations(mon, on);
         crate::c20v::normalize_windows(mon);
+        crate::c20v::valid_boundaries(mon);
     }
 }
 
